@@ -22,6 +22,7 @@ mod c02;
 mod tables;
 mod c07;
 mod c08;
+mod c06;
 
 fn main() {
     util::silence_panics();
@@ -86,6 +87,7 @@ fn main() {
                 "C17" => c17::run(&params),
                 "C01" => c01::run(&params),
                 "C02" => c02::run(&params),
+                "C06" => c06::run(&params),
                 "C07" => c07::run(&params),
                 "C08" => c08::run(&params),
                 _ => { eprintln!("unknown property {}", id); std::process::exit(2); }
